@@ -249,3 +249,235 @@ def dump_ref(crate_facts, path=REF):
     with open(path, 'w') as fh:
         json.dump(out, fh, indent=0, sort_keys=True)
     return len(out)
+
+
+# --------------------------------------------------------------------------------------------------
+# types: renamed structs / enums, renamed variants, renamed fields
+# --------------------------------------------------------------------------------------------------
+REF_ADTS = os.path.join(os.path.dirname(HERE), 'ref_adts.json')
+ADT_THRESHOLD = 0.55
+
+
+def user_adts(parsed):
+    out = {}
+    for d in parsed:
+        for k, v in d['adts'].items():
+            if k.startswith(('nundb::', 'nun_db::')):
+                out[k] = v
+    return out
+
+
+def _ty_norm(ty):
+    # a field type that mentions another type of the crate is compared by shape only
+    return re.sub(r'nun_?db::[A-Za-z0-9_:]+', '@', ty)
+
+
+def _adt_tokens(a, own_leaf):
+    c = Counter()
+    for v in a['variants']:
+        if v['name'] != own_leaf:
+            c['v:' + v['name']] += 1
+        for f in v['fields']:
+            c['f:' + f['name']] += 1
+            c['t:' + _ty_norm(f['ty'])] += 1
+    return c
+
+
+def match_adt_paths(ref, cur):
+    missing = [r for r in ref if r not in cur]
+    extra = [n for n in cur if n not in ref]
+    out, log = {}, []
+    if not missing or not extra:
+        return out, log
+    S = {}
+    for r in missing:
+        tr = _adt_tokens(ref[r], _leaf(r))
+        for n in extra:
+            if ref[r]['kind'] != cur[n]['kind']:
+                continue
+            shape = 1.0 if [[_ty_norm(f['ty']) for f in v['fields']] for v in ref[r]['variants']] == \
+                [[_ty_norm(f['ty']) for f in v['fields']] for v in cur[n]['variants']] else 0.0
+            S[(r, n)] = 0.6 * _jacc(tr, _adt_tokens(cur[n], _leaf(n))) + 0.4 * shape
+    for r in missing:
+        cand = sorted(((s, n) for (r2, n), s in S.items() if r2 == r), reverse=True)
+        if not cand:
+            continue
+        s, n = cand[0]
+        second = cand[1][0] if len(cand) > 1 else 0.0
+        back = sorted(((s2, r2) for (r2, n2), s2 in S.items() if n2 == n), reverse=True)
+        if back[0][1] != r:
+            continue
+        if s >= ADT_THRESHOLD and s - max(second, back[1][0] if len(back) > 1 else 0.0) >= MARGIN:
+            out[n] = r
+            log.append({'tree': n, 'reference': r, 'score': round(s, 3), 'kind': 'type'})
+    return out, log
+
+
+def match_members(ref, cur):
+    """for every type present in both tables: ({(adt, tree variant): ref variant}, {(adt, ref variant, tree
+    field): ref field}).  A variant / field is considered renamed only when its reference name is gone,
+    its tree name is unknown to the reference, and position and field types agree."""
+    vmap, fmap, log = {}, {}, []
+    for adt, ra in ref.items():
+        ca = cur.get(adt)
+        if ca is None or ca['kind'] != ra['kind']:
+            continue
+        rv = {v['name']: v for v in ra['variants']}
+        cv = {v['name']: v for v in ca['variants']}
+        miss = [v for v in ra['variants'] if v['name'] not in cv]
+        ext = [v for v in ca['variants'] if v['name'] not in rv]
+        pairs = []
+        if ra['kind'] != 'enum':
+            # a struct's single variant carries the struct's name
+            if len(ra['variants']) == 1 and len(ca['variants']) == 1:
+                pairs.append((ra['variants'][0], ca['variants'][0]))
+        else:
+            def sig(v):
+                return tuple(_ty_norm(f['ty']) for f in v['fields'])
+            for m in list(miss):
+                same_pos = [e for e in ext if e['idx'] == m['idx'] and sig(e) == sig(m) and e['discr'] == m['discr']]
+                same_sig = [e for e in ext if sig(e) == sig(m)]
+                same_sig_ref = [x for x in miss if sig(x) == sig(m)]
+                pick = None
+                if len(same_pos) == 1:
+                    pick = same_pos[0]
+                elif len(same_sig) == 1 and len(same_sig_ref) == 1 and sig(m):
+                    pick = same_sig[0]
+                if pick is not None:
+                    ext.remove(pick)
+                    miss.remove(m)
+                    vmap[(adt, pick['name'])] = m['name']
+                    log.append({'tree': '%s::%s' % (adt, pick['name']), 'reference': '%s::%s' % (adt, m['name']), 'kind': 'variant'})
+                    pairs.append((m, pick))
+            for n, v in rv.items():
+                if n in cv:
+                    pairs.append((v, cv[n]))
+        for r_v, c_v in pairs:
+            if r_v['name'] != c_v['name'] and ra['kind'] != 'enum':
+                vmap[(adt, c_v['name'])] = r_v['name']
+            rf = [f['name'] for f in r_v['fields']]
+            cf = [f['name'] for f in c_v['fields']]
+            fm = [f for f in r_v['fields'] if f['name'] not in cf]
+            fe = [f for f in c_v['fields'] if f['name'] not in rf]
+            for i, f in enumerate(r_v['fields']):
+                if f not in fm:
+                    continue
+                cand = None
+                if i < len(c_v['fields']) and c_v['fields'][i] in fe and _ty_norm(c_v['fields'][i]['ty']) == _ty_norm(f['ty']):
+                    cand = c_v['fields'][i]
+                else:
+                    same = [g for g in fe if _ty_norm(g['ty']) == _ty_norm(f['ty'])]
+                    same_r = [g for g in fm if _ty_norm(g['ty']) == _ty_norm(f['ty'])]
+                    if len(same) == 1 and len(same_r) == 1:
+                        cand = same[0]
+                if cand is not None:
+                    fe.remove(cand)
+                    fmap[(adt, c_v['name'], cand['name'])] = f['name']
+                    log.append({'tree': '%s::%s.%s' % (adt, c_v['name'], cand['name']),
+                                'reference': '%s::%s.%s' % (adt, r_v['name'], f['name']), 'kind': 'field'})
+    return vmap, fmap, log
+
+
+def apply_members(parsed, vmap, fmap):
+    """rename variants and fields in place (facts already carry reference type paths)"""
+    if not vmap and not fmap:
+        return
+    # variant context of a field projection: the downcast element before it, else the struct's variant
+    struct_variant = {}
+    for d in parsed:
+        for k, a in d['adts'].items():
+            if a['kind'] != 'enum' and len(a['variants']) == 1:
+                struct_variant[k] = a['variants'][0]['name']
+    uniq = Counter(v for (_, v) in vmap)
+
+    def proj(plist):
+        for i, e in enumerate(plist):
+            if not isinstance(e, list) or not e:
+                continue
+            if e[0] == 'f' and len(e) >= 4:
+                adt = e[2]
+                var = None
+                if i > 0 and isinstance(plist[i - 1], list) and plist[i - 1] and plist[i - 1][0] == 'd':
+                    var = plist[i - 1][1]
+                else:
+                    var = struct_variant.get(adt)
+                new = fmap.get((adt, var, e[3]))
+                if new is not None:
+                    e[3] = new
+        for i, e in enumerate(plist):
+            if isinstance(e, list) and e and e[0] == 'd':
+                adt = None
+                if i + 1 < len(plist) and isinstance(plist[i + 1], list) and plist[i + 1] and plist[i + 1][0] == 'f':
+                    adt = plist[i + 1][2]
+                if adt is not None:
+                    new = vmap.get((adt, e[1]))
+                elif uniq.get(e[1]) == 1:
+                    new = [r for (a, v), r in vmap.items() if v == e[1]][0]
+                else:
+                    new = None
+                if new is not None:
+                    e[1] = new
+
+    def walk(x):
+        if isinstance(x, dict):
+            if x.get('ak') == 'adt' and 'adt' in x:
+                adt, var = x['adt'], x.get('variant')
+                if 'fields' in x:
+                    x['fields'] = [fmap.get((adt, var, f), f) for f in x['fields']]
+                if (adt, var) in vmap:
+                    x['variant'] = vmap[(adt, var)]
+            if 'enum' in x and 'variant' in x and (x['enum'], x['variant']) in vmap:
+                x['variant'] = vmap[(x['enum'], x['variant'])]
+            if 'p' in x and isinstance(x['p'], list) and 'l' in x:
+                proj(x['p'])
+            for v in x.values():
+                walk(v)
+        elif isinstance(x, list):
+            for v in x:
+                walk(v)
+
+    for d in parsed:
+        for b in d['bodies']:
+            walk(b)
+        for k, a in d['adts'].items():
+            for v in a['variants']:
+                old = v['name']
+                for f in v['fields']:
+                    f['name'] = fmap.get((k, old, f['name']), f['name'])
+                if (k, old) in vmap:
+                    v['name'] = vmap[(k, old)]
+
+
+def dump_ref_adts(parsed, path=REF_ADTS):
+    a = user_adts(parsed)
+    with open(path, 'w') as fh:
+        json.dump(a, fh, indent=0, sort_keys=True)
+    return len(a)
+
+
+def normalise(texts):
+    """texts: raw JSON of the crates' facts -> (parsed facts with reference names, log of renames)"""
+    parsed = [json.loads(x) for x in texts]
+    log = []
+    try:
+        ref_adts = json.load(open(REF_ADTS))
+    except (OSError, ValueError):
+        ref_adts = None
+    if ref_adts:
+        amap, alog = match_adt_paths(ref_adts, user_adts(parsed))
+        if amap:
+            texts = rewrite(texts, amap)
+            parsed = [json.loads(x) for x in texts]
+            log += alog
+        vmap, fmap, mlog = match_members(ref_adts, user_adts(parsed))
+        if vmap or fmap:
+            apply_members(parsed, vmap, fmap)
+            texts = [json.dumps(p) for p in parsed]
+            log += mlog
+    ref = load_ref()
+    if ref:
+        mapping, flog = match(ref, fingerprints(parsed))
+        if mapping:
+            parsed = [json.loads(x) for x in rewrite(texts, mapping)]
+            log += [dict(l, kind='function') for l in flog]
+    return parsed, log
